@@ -168,6 +168,34 @@ def run(ck, prop, reps=2):
                     ck.ratio("layout", regime, _close(_vals(r), _vals(ref), u), 1.0, name, "result_depends_on_memory_layout_of_the_operand", wit)
                     ck.check(torch.equal(_vals(Xv), v), "layout", regime, name, "operand_changed", wit)
                     ck.mark("layout/" + lay)
+    if prop == "C03":
+        # in-place identity_() on views of a larger tensor (implemented for SO3): every item of the view becomes the identity,
+        # nothing else of the base changes
+        for dn in ("f64", "f32"):
+            dtype = lie.DT[dn]
+            for lay in ("contiguous", "transposed", "column-slice", "row-stride", "rotation-of-poses"):
+                if lay == "rotation-of-poses":
+                    base = _fresh("SE3", _make("SE3", rng, (3, 4), dtype))
+                    view = base[:, 1:3].rotation()
+                    sel = (slice(None), slice(1, 3), slice(3, 7))
+                else:
+                    base = _fresh("SO3", _make("SO3", rng, (3, 4), dtype))
+                    view, sel = {"contiguous": (base, (slice(None), slice(None))), "transposed": (base.transpose(0, 1), (slice(None), slice(None))),
+                                 "column-slice": (base[:, :2], (slice(None), slice(0, 2))), "row-stride": (base[::2], (slice(0, None, 2), slice(None)))}[lay]
+                    sel = sel + (slice(None),)
+                before = base.tensor().clone()
+                regime = f"SO3.identity_/{dn}/{lay}"
+                ok, _ = ck.call("layout", regime, "SO3.identity_", lambda: view.identity_(), witness={"layout": lay, "dtype": dn})
+                ck.count("layout", regime, key=("identity_", dn, lay))
+                if not ok:
+                    continue
+                now = base.tensor()
+                want = before.clone()
+                want[sel] = torch.tensor([0.0, 0.0, 0.0, 1.0], dtype=dtype)
+                ck.check(torch.equal(now, want), "layout", regime, "SO3.identity_", "identity__does_not_write_the_identity_into_the_view",
+                         {"layout": lay, "dtype": dn, "base_after": now.tolist()})
+                ck.mark("layout/identity_/" + lay)
+        ck.require("layout/identity_/transposed", "layout/identity_/column-slice")
     ck.require("history/copy_", "history/index", "history/retract", "layout/strided-batch", "layout/strided-last", "layout/expanded",
                "layout/transposed", "layout/requires_grad")
     ck.floor("history", 8)
